@@ -1683,8 +1683,13 @@ def gen_packets():
         tr = TrI(names={'self.format': ('fmt', 'bytes'), 'self.filename': ('fname', 'bytes'), 'self._contents': ('contents', 'bytes')},
                  calls=I2B, raises=True, ratoms=[latin],
                  atoms=[('super(LiteralData, self).__bytearray__()', 'hdr', 'bytes', []),
-                        ('calendar.timegm(self.mtime.utctimetuple())', 'mtime0', 'Z', [])])
+                        ('calendar.timegm(self.mtime.utctimetuple())', 'mtime0', 'Z', [])],
+                 # the two statements that prepare self.header (length form, length of this body) before it is emitted: pinned text,
+                 # their effect is inside hdr = super().__bytearray__() which is emitted AFTER them
+                 skip=['if self.header._lenfmt == 0 and self.header.llen == 0:\n    self.header.llen = 0',
+                       'self.header.length = len(_body)'])
         emit = tr.block(strip_doc(fn.body))
+        tr.finish()
         fn = find_method(lit, 'parse')
         tr = TrI(names={'packet': ('packet', 'bytes')}, raises=True, skip=['super(LiteralData, self).parse(packet)'],
                  fields={'self.format': ('fmt', 'bytes'), 'self.filename': ('fname', 'bytes'), 'self.mtime': ('mtime', 'bytes'),
@@ -1694,7 +1699,8 @@ def gen_packets():
         prs = tr.block(strip_doc(fn.body) + [ret_stmt('(self.format, self.filename, self.mtime, self._contents, packet)')])
         tr.finish()
         return ('(* LiteralData.__bytearray__: text = list of code points (encode(\'latin-1\') raises UnicodeEncodeError above 255);\n'
-                '   fmt = self.format, fname = self.filename, mtime0 = timegm(self.mtime), hdr = the header octets *)\n'
+                '   fmt = self.format, fname = self.filename, mtime0 = timegm(self.mtime), hdr = the header octets as emitted after the\n'
+                '   (pinned) statements that set self.header.llen / self.header.length from the body just built *)\n'
                 'Definition gen_lit_emit (hdr fmt fname : bytes) (mtime0 : Z) (contents : bytes) : gres bytes :=\n %s.\n\n'
                 '(* LiteralData.parse after the header (super().parse is pinned text): the values assigned to format, filename, mtime (the\n'
                 '   four octets handed to the setter), _contents, and the rest of the buffer; hlen = self.header.length *)\n'
@@ -1924,16 +1930,22 @@ def gen_policy():
             raise Unsupported('_action signature')
         tr = TrI(names={'key': ('key', 'Z'), 'key.is_primary': ('is_primary', 'bool')}, raises=True,
                  atoms=[('key._key is None', 'no_key', 'bool', []), ('len(key._uids)', 'nuids', 'Z', []),
-                        ('action is not key.certify.__wrapped__', 'not_certify', 'bool', [])],
-                 ratoms=[("self.usage(key, kwargs.get('user', None))", '(gen_usage req flags_of enforce key subkeys)', 'Z', [], None),
-                         ('self.check_attributes(key)', '(gen_check_attributes getattr_key conds)', 'unit', [], None),
-                         ('action(_key, *args, **kwargs)', '(GOk _key)', 'Z', [], None)])
+                        ('action is not key.certify.__wrapped__', 'not_certify', 'bool', []),
+                        ('user is not None and key.get_uid(user) is None', 'user_unknown', 'bool', [])],
+                 ratoms=[('self.usage(key, user)', '(gen_usage req flags_of enforce key subkeys)', 'Z', [], None),
+                         ('self.check_attributes(_key)', '(gen_check_attributes (getattr_key _key) conds)', 'unit', [], None),
+                         ('action(_key, *args, **kwargs)', '(GOk _key)', 'Z', [], None)],
+                 skip=["user = kwargs.get('user', None)"])
         txt = tr.block(strip_doc(act.body))
+        tr.finish()
         return ('(* the wrapper KeyAction.__call__ installs: GOk k = the undecorated method runs on key object k (what it returns or raises\n'
                 '   is outside the translation); no_key = `key._key is None`, nuids = len(key._uids), not_certify = `action is not\n'
-                '   key.certify.__wrapped__` *)\n'
+                '   key.certify.__wrapped__`, user_unknown = `user is not None and key.get_uid(user) is None` for user = kwargs.get(\'user\', None)\n'
+                '   (that assignment is pinned text); getattr_key k a = getattr(<key object k>, <attribute a>): the conditions are checked on\n'
+                '   the component usage() yields *)\n'
                 'Definition gen_key_action (req : Z) (flags_of : Z -> Z) (enforce : bool) (key : Z) (subkeys : list Z)\n'
-                '  (getattr_key : Z -> bool) (conds : list (Z * bool)) (no_key : bool) (nuids : Z) (is_primary not_certify : bool) : gres Z :=\n %s.\n' % txt)
+                '  (getattr_key : Z -> Z -> bool) (conds : list (Z * bool)) (no_key : bool) (nuids : Z)\n'
+                '  (is_primary not_certify user_unknown : bool) : gres Z :=\n %s.\n' % txt)
     guarded(out, 'KeyAction.__call__', t_call)
 
     write('Gen_policy.v', '\n'.join(out))
